@@ -2,7 +2,8 @@
 Implementation driven: a REAL RepeatingEngine (run -> EngineTaskController / schedule_next_instance,
 notify_all_producers_finished, kill, isAlive, exitReason, canConsume) driven by the REAL loop of
 monitor.CreateMonitor, run synchronously under a fake clock (see c13_impl.py); the REAL
-Job.producersHaveOutputSinceDate runs on the duck-typed job. The harness scripts: when producers write output,
+Job.producersHaveOutputSinceDate runs on the duck-typed job, over ANY NUMBER of producers (each with its own
+stage / repeating flag / output times). The harness scripts: when each producer writes output,
 where the producers-finished notification lands between two polls, task outcomes (return code, duration, launch
 failure, ResourceExhausted), external kill, expiry of the kill-after-producers-done-delay timer (between two
 executions or during one)."""
@@ -19,7 +20,10 @@ ASSUMPTIONS = [
     'task.wait(); the kill-delay timer (reactivex.timer) fires when the script says so',
     'producer output is visible to the observer at the instant it is written (no NFS delay); output written after the '
     'producers-finished notification is excluded by hypothesis in C13_sees_final_output',
-    'one producer (or none), duck-typed job and task objects; the optimizer-driven repeat interval is disabled; '
+    '0 to 3 producers, duck-typed job, producer and task objects; in the engine-level scripts the script delivers the '
+    'producers-finished notification; in the producer-level scripts the real ComponentState.stageIn runs (on a duck-typed '
+    'ComponentState whose producers\' notifyFinished are rx Subjects, with an immediate scheduler instead of the thread pool) '
+    'and delivers it; the optimizer-driven repeat interval is disabled; '
     'Engine.emit_now (state emission on rx pools) and archive_stream are stubbed',
     'task durations are positive (a zero duration makes _perfData_launch_succeeded divide by zero)',
 ]
@@ -43,16 +47,30 @@ def CFG(**k):
     return c
 
 
+def PR(same_stage=True, prod_rep=True):
+    return {'same_stage': same_stage, 'prod_rep': prod_rep}
+
+
 def eff_retries(cfg):
     return 3 if cfg['retries'] is None else cfg['retries']
 
 
 # ------------------------------------------------------------------ Coq printing
 def coq_cfg(c):
-    return ('{| c_retries := %s; c_has_prod := %s; c_same_stage := %s; c_prod_rep := %s; c_check_out := %s; '
+    prods = clist(['{| p_same := %s; p_rep := %s |}' % (cbool(p['same_stage']), cbool(p['prod_rep']))
+                   for p in c13_impl.prod_list(c)])
+    return ('{| c_retries := %s; c_prods := (%s : list prod); c_check_out := %s; '
             'c_has_delay := %s; c_interval := %s; c_t0 := %s |}' % (
-                copt(c['retries'], cZ), cbool(c['has_prod']), cbool(c['same_stage']), cbool(c['prod_rep']),
+                copt(c['retries'], cZ), prods,
                 cbool(c['check_out']), cbool(c['has_delay']), cZ(c['interval']), cZ(c['t0'])))
+
+
+def is_out(ev):
+    return ev.startswith('Out')
+
+
+def coq_ev(ev):
+    return '(Out %d)' % int(ev[3:] or 0) if is_out(ev) else ev
 
 
 def coq_out(o):
@@ -64,7 +82,8 @@ def coq_steps(steps):
     out = []
     for i, st in enumerate(steps):
         out.append('(%s, (%s : list event), %s, (%s : list event))' % (
-            cZ(0 if i == 0 else st['dt']), clist(st['evs']), coq_out(st['o']), clist(['Notify'] if st['o'].get('ntf') else [])))
+            cZ(0 if i == 0 else st['dt']), clist([coq_ev(e) for e in st['evs']]), coq_out(st['o']),
+            clist(['Notify'] if st['o'].get('ntf') else [])))
     return clist(out)
 
 
@@ -73,6 +92,25 @@ def coq_obs(o):
             'b_consume := %s; b_pf := %s; b_suicide := %s; b_ll := %s; b_actions := %s; b_lasts := %s |}' % (
                 cZ(o['launches']), cZ(o['retries']), cbool(o['cancel']), cbool(o['kc']), cbool(o['alive']), o['reason'],
                 cbool(o['consume']), cbool(o['pf']), cbool(o['suicide']), cZ(o['ll']), cZ(o['actions']), cZ(o['lasts'])))
+
+
+def coq_pev(ev):
+    if is_out(ev):
+        return '(PWrite %d)' % int(ev[3:] or 0)
+    if ev.startswith('Fin'):
+        return '(PFinish %d)' % int(ev[3:])
+    return '(PEnv %s)' % ev
+
+
+def coq_case3(cfg, steps, res):
+    """a producer-level script (stageIn mode): (cfg, producers alive at stageIn, script, outputs)"""
+    xs = clist(['{| x_launch := %s; x_pf := %s; x_rc := %s |}' % (cZ(t), cbool(p), copt(rc, cZ))
+                for (t, p, rc, _lo, _k) in res['execs']])
+    sts = clist(['(%s, (%s : list pevent), %s)' % (cZ(0 if i == 0 else st['dt']), clist([coq_pev(e) for e in st['evs']]),
+                                                   coq_out(st['o'])) for i, st in enumerate(steps)])
+    return '(%s, (%s : list bool), %s, (%s, %s, (%s : list exec)))' % (
+        coq_cfg(cfg), clist([cbool(b) for b in cfg['alive0']]), sts,
+        clist([coq_obs(o) for o in res['obs']]), cbool(res['finished']), xs)
 
 
 def coq_case(cfg, steps, res):
@@ -84,11 +122,12 @@ def coq_case(cfg, steps, res):
 
 # ------------------------------------------------------------------ property predicate on the implementation's run
 def f13_class(cfg, steps):
-    """input-only class of the open finding F13: fewer than 5 retries, and the producers' last output is not newer
-    than the moment the observer started (so that no output is 'new' for an observer that never executed)"""
-    outs = [i for i, st in enumerate(steps) if 'Out' in st['evs']]
+    """input-only class of finding F13 (FIXED - kept to label the regression): fewer than 5 retries, one repeating
+    producer whose last output is not newer than the moment the observer started"""
+    outs = [i for i, st in enumerate(steps) if any(is_out(e) for e in st['evs'])]
     only_before_start = bool(outs) and max(outs) == 0
-    return (eff_retries(cfg) < 5 and cfg['prod_rep'] and cfg['check_out'] and cfg['has_prod'] and only_before_start)
+    return (eff_retries(cfg) < 5 and all(p['prod_rep'] for p in c13_impl.prod_list(cfg)) and cfg['check_out']
+            and bool(c13_impl.prod_list(cfg)) and only_before_start)
 
 
 def predicate(ctx, cfg, steps, res):
@@ -104,11 +143,11 @@ def predicate(ctx, cfg, steps, res):
     if res['errors']:
         ctx.fail(case, 'driver protocol error: %s' % res['errors'][:3])
     # (1) never executes before there is producer output it can consume
-    if cfg['has_prod'] and cfg['same_stage']:
-        for (t, p, rc, lo, k) in execs:
-            if lo is None:
-                ctx.fail(case, 'the observer executed before its producer had written any output')
-                break
+    plist = c13_impl.prod_list(cfg)
+    for (t, p, rc, los, k) in execs:
+        if any(pc['same_stage'] and los[i] is None for i, pc in enumerate(plist)):
+            ctx.fail(case, 'the observer executed before every producer in its stage had written output')
+            break
     for i, o in enumerate(obs):
         if o['launches'] > 0 and not o['consume']:
             ctx.fail(case, 'the observer executed although it was never able to consume')
@@ -140,13 +179,23 @@ def predicate(ctx, cfg, steps, res):
         if last['alive'] or last['reason'] == 'RNone' or not last['kc'] or last['lasts'] != 1:
             ctx.fail(case, 'the monitor returned but the engine does not report itself finished')
     # (3) the final output is observed
-    frozen = notify_at is not None and not any('Out' in steps[i]['evs'] for i in range(notify_at + 1, n)) and \
-        ('Out' not in steps[notify_at]['evs'] or steps[notify_at]['evs'].index('Out') < steps[notify_at]['evs'].index('Notify'))
-    if (res['finished'] and not res['kills'] and not res['fired'] and obs[-1]['consume'] and res['lo'] is not None
-            and frozen and cfg['has_prod']):
-        if not any(t >= res['lo'] for (t, p, rc, lo, k) in execs):
+    def out_after_notify(evs):
+        seen = False
+        for e in evs:
+            if e == 'Notify':
+                seen = True
+            elif seen and is_out(e):
+                return True
+        return False
+    frozen = notify_at is not None and not any(is_out(e) for i in range(notify_at + 1, n) for e in steps[i]['evs']) and \
+        not out_after_notify(steps[notify_at]['evs'])
+    written = [l for l in res['los'] if l is not None]
+    if (res['finished'] and not res['kills'] and not res['fired'] and obs[-1]['consume'] and written
+            and frozen and plist):
+        if not any(t >= max(written) for (t, p, rc, los, k) in execs):
+            # (finding F13 is repaired: no open class covers this any more)
             ctx.fail(case, 'the observer stopped by itself without having started an execution after its producers\' '
-                           'last output', [F13_CLASS] if f13_class(cfg, steps) else [])
+                           'last output' + (' [regression of fixed finding F13]' if f13_class(cfg, steps) else ''))
             ctx.count('final_output_missed')
         else:
             ctx.count('final_output_seen')
@@ -156,24 +205,51 @@ def predicate(ctx, cfg, steps, res):
 def explore(ctx, cases, label='C13 trace'):
     drv = c13_impl.Driver()
     terms = []
+    terms3 = []
     try:
         for cfg, steps in cases:
             res = drv.run_case(cfg, steps)
             used = steps[:res['nsteps']]
-            predicate(ctx, cfg, used, res)
-            notified_running = any('Notify' in st['evs'] or st['o'].get('ntf') for st in used)
+            stagein = cfg.get('alive0') is not None
+            # stageIn mode: the predicate looks at what reached the engine (writes actually made, the notification
+            # delivered by the real ComponentState.stageIn subscription)
+            seen = [dict(st, evs=res['eff'][i]) for i, st in enumerate(used)] if stagein else used
+            predicate(ctx, cfg, seen, res)
+            if stagein:
+                # "all of its producers have finished": the notification reaches the engine exactly when the last
+                # living producer finishes (at stageIn when there is none), and at most once
+                alive = list(cfg['alive0'])
+                want = [0] if not any(alive) else []
+                for i, st in enumerate(used):
+                    for ev in st['evs']:
+                        if ev.startswith('Fin') and int(ev[3:]) < len(alive) and alive[int(ev[3:])]:
+                            alive[int(ev[3:])] = False
+                            if not any(alive):
+                                want.append(i)
+                got = [i for i, st in enumerate(seen) for ev in st['evs'] if ev == 'Notify']
+                if got != want:
+                    ctx.fail({'cfg': cfg, 'steps': used}, 'the producers-finished notification reached the engine at steps %s; '
+                             'the last living producer finished at steps %s' % (got, want))
+                ctx.count('stagein_scripts')
+                if any('Notify' in st['evs'] for st in seen):
+                    ctx.count('stagein_notification_delivered')
+            notified_running = any('Notify' in st['evs'] or st['o'].get('ntf') for st in seen)
             nontriv = bool(res['execs']) and notified_running
             ctx.case([cfg, used], nontriv)
             ctx.count('polls_%02d' % min(len(used), 16))
             ctx.count('finished' if res['finished'] else 'still_running_at_end_of_script')
             ctx.count('launches_%d' % min(len(res['execs']), 6))
+            ctx.count('producers_%d' % len(c13_impl.prod_list(cfg)))
             for st in used:
                 for ev in st['evs']:
-                    ctx.count('ev_' + ev)
+                    ctx.count('ev_' + ('Out' if is_out(ev) else ev))
             if res['fired']:
                 ctx.count('kill_delay_timer_fired')
             if any(o['reason'].startswith('R?') for o in res['obs']):
                 ctx.disagree({'cfg': cfg, 'steps': used}, res['obs'], None, label + ': exit reason outside the model')
+                continue
+            if stagein:
+                terms3.append((coq_case3(cfg, used, res), cfg, used, res))
                 continue
             terms.append((coq_case(cfg, used, res), cfg, used, res))
             if nontriv:
@@ -190,6 +266,12 @@ def explore(ctx, cases, label='C13 trace'):
         ctx.disagree({'cfg': cfg, 'steps': used}, {'obs': res['obs'], 'finished': res['finished'],
                                                    'execs': [e[:3] for e in res['execs']]}, m,
                      label + ': RepeatingEngine/CreateMonitor vs Repeat.Model.run_steps')
+    bad = ctx.model_mismatches(HEADER, [t[0] for t in terms3], 'check_case3', chunk=250) if terms3 else []
+    for k, i in enumerate(bad):
+        _, cfg, used, res = terms3[i]
+        ctx.disagree({'cfg': cfg, 'steps': used}, {'obs': res['obs'], 'finished': res['finished'],
+                                                   'execs': [e[:3] for e in res['execs']], 'reached_engine': res['eff']}, '',
+                     label + ': ComponentState.stageIn + RepeatingEngine/CreateMonitor vs Repeat.Model.run_steps3 (producer model)')
 
 
 OUTCOME_PATTERNS = [
@@ -207,14 +289,23 @@ def exhaustive(n, cfgs, max_outs):
     for m in range(1, max_outs + 1):
         out_sets += list(itertools.combinations(range(n), m))
     for cfg in cfgs:
+        nprod = len(c13_impl.prod_list(cfg))
+        # what the other producers do: (the second producer's write steps, the third's)
+        others = [((), ())] if nprod < 2 else [((0,), (0,)), ((), (0,)), ((n - 1,), (0,)), ((n // 2,), (n - 1,))]
         for np_ in places:
+          for oth in others:
             for pat in OUTCOME_PATTERNS:
                 for outs in out_sets:
+                    if nprod >= 2 and len(outs) > 1 and oth != others[0]:
+                        continue
                     steps = []
                     for i in range(n):
                         evs = []
                         if i in outs:
                             evs.append('Out')
+                        for q in range(1, nprod):
+                            if i in oth[min(q, 2) - 1] and (np_ is None or i <= np_):
+                                evs.append('Out%d' % q)
                         if np_ == i:
                             evs.append('Notify')
                         steps.append(S(5000, evs, pat(i)))
@@ -234,15 +325,26 @@ def gen_random(rng, thorough):
               same_stage=rng.random() < 0.8, prod_rep=rng.random() < 0.75, check_out=rng.random() < 0.9,
               has_delay=rng.random() < 0.35, interval=rng.choice([5000, 7000, 10000, 12000, 30000]),
               t0=rng.choice([0, 1000, 100000, 123456]))
-    cfg['extra_prod'] = rng.choice([None, None, 'first', 'last'])
+    nprod = rng.choice([1, 1, 2, 2, 3]) if cfg['has_prod'] else 0
+    if nprod != 1 or rng.random() < 0.5:
+        # an explicit list of producers, each with its own stage / repeating flag
+        cfg['prods'] = [PR(rng.random() < 0.8, rng.random() < 0.75) for _ in range(nprod)]
+        cfg['has_prod'] = nprod > 0
     n = rng.randint(3, 20 if thorough else 14)
     notify_at = rng.choice([None] + list(range(n)) * 3)
     steps = []
     last_out_allowed = n if notify_at is None else notify_at
+    # producers behave as producers: each finishes at some step (the last one when the notification is delivered)
+    # and does not write afterwards
+    fin = [rng.randint(0, last_out_allowed) for _ in range(max(nprod, 1))]
+    if fin:
+        fin[rng.randrange(len(fin))] = last_out_allowed
     for i in range(n):
         evs = []
-        if i <= last_out_allowed and rng.random() < 0.3:
-            evs.append('Out')
+        for q in range(max(nprod, 1)):
+            if i <= fin[q] and rng.random() < (0.3 if q == 0 else 0.22):
+                evs.append('Out' if q == 0 else 'Out%d' % q)
+        rng.shuffle(evs)
         if notify_at == i:
             if i >= 1 and rng.random() < 0.35:
                 steps[i - 1]['o']['ntf'] = True     # ... it arrives while the previous poll's execution is in flight
@@ -256,7 +358,7 @@ def gen_random(rng, thorough):
             elif r < 0.16 and cfg['has_delay']:
                 evs.append('Suicide')
             elif r < 0.19:
-                evs.append('Out')      # output after the notification: outside the hypothesis of (3)
+                evs.append(rng.choice(['Out', 'Out', 'Out1']))      # output after the notification: outside the hypothesis of (3)
             elif r < 0.21:
                 evs.append('Notify')
         elif rng.random() < 0.01:
@@ -265,6 +367,60 @@ def gen_random(rng, thorough):
               fail=rng.random() < 0.08, sui=cfg['has_delay'] and rng.random() < 0.12, re=rng.random() < 0.1)
         steps.append(S(rng.choice([5000, 5000, 5001, 5500, 7000, 12000]), evs, o))
     return cfg, steps
+
+
+def gen_stagein(rng, thorough):
+    """a producer-level script: producers write while alive and finish; nobody scripts the notification"""
+    nprod = rng.choice([0, 1, 1, 2, 2, 2, 3])
+    cfg = CFG(retries=rng.choice([None, 0, 1, 2, 3, 5]), check_out=rng.random() < 0.9, has_delay=rng.random() < 0.25,
+              interval=rng.choice([5000, 7000, 10000, 12000]), t0=rng.choice([0, 100000, 123456]),
+              prods=[PR(rng.random() < 0.8, rng.random() < 0.75) for _ in range(nprod)], has_prod=nprod > 0)
+    cfg['alive0'] = [rng.random() < 0.9 for _ in range(nprod)]
+    n = rng.randint(3, 16 if thorough else 12)
+    fin = [rng.choice([None] + list(range(n)) * 4) for _ in range(nprod)]
+    steps = []
+    for i in range(n):
+        evs = []
+        for q in range(nprod):
+            if rng.random() < (0.3 if (fin[q] is None or i <= fin[q]) else 0.08):   # (a finished producer's write is not made)
+                evs.append('Out' if q == 0 else 'Out%d' % q)
+            if fin[q] == i or (fin[q] is not None and i > fin[q] and rng.random() < 0.03):
+                evs.append('Fin%d' % q)
+        rng.shuffle(evs)
+        r = rng.random()
+        if r < 0.015:
+            evs.append('Kill')
+        elif r < 0.08 and cfg['has_delay']:
+            evs.append('Suicide')
+        o = O(rc=rng.choice([0, 0, 1, 1, 2]), dur=rng.choice([1, 500, 1000, 4000, 7000, 26000]),
+              fail=rng.random() < 0.08, sui=cfg['has_delay'] and rng.random() < 0.1, re=rng.random() < 0.1)
+        steps.append(S(rng.choice([5000, 5000, 5001, 5500, 7000, 12000]), evs, o))
+    return cfg, steps
+
+
+def exhaustive_stagein(n):
+    """two same-stage repeating producers: every pair of finishing steps (or never) x outcome patterns x a few write patterns"""
+    cases = []
+    places = [None] + list(range(n))
+    writes = [((0,), (0,)), ((0, n - 1), (0,)), ((0,), (n // 2, n - 1)), ((n - 1,), ())]
+    for r in (0, 3):
+        for f0 in places:
+            for f1 in places:
+                for pat in OUTCOME_PATTERNS[:4]:
+                    for w in writes:
+                        steps = []
+                        for i in range(n):
+                            evs = []
+                            for q in (0, 1):
+                                if i in w[q]:
+                                    evs.append('Out' if q == 0 else 'Out1')
+                            if f0 == i:
+                                evs.append('Fin0')
+                            if f1 == i:
+                                evs.append('Fin1')
+                            steps.append(S(5000, evs, pat(i)))
+                        cases.append((CFG(retries=r, prods=[PR(), PR()], alive0=[True, True]), steps))
+    return cases
 
 
 def corpus():
@@ -284,6 +440,16 @@ def corpus():
     c.append((CFG(has_delay=True, prod_rep=False), [S(0, ['Out']), S(), S(5000, ['Notify'], O(rc=9, sui=True)), S(), S()]))
     c.append((CFG(prod_rep=False), [S(0, ['Out'], O(rc=1, re=True)), S(5000, ['Kill']), S(), S()]))
     c.append((CFG(), [S(0, ['Kill']), S(), S()]))
+    # two producers: nothing runs until BOTH same-stage producers have output; the final output of the slower one is seen
+    two = CFG(prods=[PR(), PR()])
+    c.append((two, [S(0, ['Out']), S(), S(5000, ['Out1']), S(), S(5000, ['Out1', 'Notify']), S(), S(), S(), S(), S()]))
+    c.append((two, [S(0, ['Out1']), S(), S(), S(5000, ['Notify']), S(), S(), S(), S(), S()]))      # never able to consume
+    # a non-repeating producer anywhere in the list makes every poll see "new output"
+    c.append((CFG(prods=[PR(), PR(prod_rep=False)]), [S(0, ['Out', 'Out1']), S(), S(), S(5000, ['Notify'], O(rc=1)), S(o=O(rc=1)), S(), S()]))
+    c.append((CFG(prods=[PR(prod_rep=False), PR()]), [S(0, ['Out', 'Out1']), S(), S(), S(5000, ['Notify'], O(rc=1)), S(o=O(rc=1)), S(), S()]))
+    # a producer of another stage is not waited for; three producers, old output of all, notified before run() (F13 shape)
+    c.append((CFG(prods=[PR(), PR(same_stage=False)]), [S(0, ['Out']), S(), S(5000, ['Out1']), S(), S(5000, ['Notify']), S(), S()]))
+    c.append((CFG(retries=1, prods=[PR(), PR(), PR()]), [S(0, ['Out', 'Out1', 'Out2', 'Notify'])] + [S() for _ in range(4)]))
     return c
 
 
@@ -293,13 +459,15 @@ def run(ctx):
     ctx.rule = ('exhaustive: every placement of the producers-finished notification (before run(), in any sleep, never) x 6 task '
                 'outcome patterns x every placement of <= 2 producer writes, scripts of <= N polls (N=6 quick, 9 thorough), for a grid '
                 'of repeatRetries/interval/producer kinds; plus random scripts (<= 14/20 polls; jittered poll times, launch failures, '
-                'kill-delay timer between or during executions, external kill, late output); non-trivial = at least one launch and '
+                'kill-delay timer between or during executions, external kill, late output); plus producer-level scripts (0-3 producers that '
+                'write while alive and finish; the notification is delivered by the real ComponentState.stageIn subscription: exhaustive over '
+                'both finishing steps of two producers for <= 4/6 polls, and random); non-trivial = at least one launch and '
                 'the notification delivered; distinct by (cfg, consumed script)')
     cases = corpus()
     ctx.count('corpus_cases', len(cases))
     grid = [CFG(retries=r, interval=iv) for r in (0, 1, 3) for iv in (5000, 12000)]
     grid += [CFG(retries=5, interval=5000), CFG(retries=1, prod_rep=False), CFG(retries=1, has_prod=False),
-             CFG(retries=1, same_stage=False), CFG(retries=1, extra_prod='last'), CFG(retries=1, extra_prod='first')]
+             CFG(retries=1, same_stage=False), CFG(retries=1, prods=[PR(), PR()]), CFG(retries=1, prods=[PR(), PR(), PR(False, True)])]
     N = 9 if thorough else 6
     ex = []
     small = [grid[1], grid[2], grid[5], grid[6], grid[7]]
@@ -311,6 +479,14 @@ def run(ctx):
     cases += ex
     for _ in range(40000 if thorough else 2000):
         cases.append(gen_random(rng, thorough))
+    # producer-level scripts run through the real ComponentState.stageIn subscription
+    st = []
+    for n in range(1, (6 if thorough else 4) + 1):
+        st += exhaustive_stagein(n)
+    ctx.count('exhaustive_stagein_cases', len(st))
+    cases += st
+    for _ in range(12000 if thorough else 1200):
+        cases.append(gen_stagein(rng, thorough))
     explore(ctx, cases)
 
 
